@@ -168,6 +168,10 @@ HAND_CASES = [
     # witness of the recorded finding (findings.d/C03.json): from the second invocation on, `1.5 CmdC` starts 0.2 s
     # into the Alarm body, because the 6-tick command of the previous invocation completes meanwhile
     ("Base: s\nAlarm: T0 > 0\n    1.5 CmdC", "0.1", 60, []),
+    # every execution of a Wait waits its full duration: in a Macro called three times, in a re-firing Alarm
+    ("Base: s\nMacro: M1\n    Mark: a\n    Wait: 1s\n    Mark: b\nCall macro: M1\nCall macro: M1\nCall macro: M1", "0.1", 90, []),
+    ("Base: s\nMacro: M1\n    Wait: 0.75s\n    Mark: b\nCall macro: M1\nMark: m\nCall macro: M1", "0.1", 70, [(30, "Pause"), (36, "Unpause")]),
+    ("Base: s\nAlarm: T0 > 0\n    Mark: a\n    Wait: 0.75s\n    Mark: b", "0.1", 90, [(40, "Hold"), (44, "Unhold")]),
 ]
 
 
@@ -198,6 +202,9 @@ def run_oracle(ctx: Check, cases: list[dict]) -> None:
         ctx.count("oracle:cases_dt_" + c["dt"])
         if any(a[0] == "user" for acts in c["plan"] for a in acts):
             ctx.count("oracle:cases_with_pause_or_hold")
+        for k, v in (c.get("stats") or {}).items():
+            if k.startswith("rerun_"):
+                ctx.count("oracle:cases_" + k, v)
 
 
 def run(ctx: Check) -> int:
@@ -214,7 +221,9 @@ def run(ctx: Check) -> int:
                 "Non-trivial = a threshold instruction observed waiting and later started, or a Wait observed waiting and "
                 "later completed. Self-tests: clocks shifted by 1/8 s (a), tick times doubled (b) must change the model's "
                 "answers. Oracle: generated + hand-written methods on the real Engine, 60-120 ticks of 0.1 s (2/3) or "
-                "0.125 s (1/3), random Pause/Hold periods and condition-tag changes between ticks.")
+                "0.125 s (1/3), random Pause/Hold periods and condition-tag changes between ticks; 30% of the 0.1 s cases "
+                "put a Wait into a Macro called 2-3 times or into the body of an Alarm that keeps firing, and the Wait "
+                "window is judged per execution of the Wait.")
     corpus = [c for c in load_corpus("C03") if "pcode" in c and "plan" in c]
     run_oracle(ctx, corpus + hand_cases())
     a = gen_corr_cases(ctx, ctx.n(120, 2500), 8)
